@@ -67,6 +67,7 @@ func Main() {
 		if *work != "" {
 			c.OpenProgress(filepath.Join(*work, fmt.Sprintf("b%d.progress", *batch)))
 			c.ResultPath = filepath.Join(*work, fmt.Sprintf("b%d.json", *batch))
+			os.Remove(c.ResultPath + ".maydie")
 		}
 		if RaceEnabled {
 			c.Count("race_detector_active_batches", 1)
@@ -226,7 +227,11 @@ func runParent(ch Check, tier string, seed int64) int {
 			errF.Close()
 			var res Result
 			b, rerr := os.ReadFile(filepath.Join(work, fmt.Sprintf("b%d.json", i)))
-			if rerr == nil && json.Unmarshal(b, &res) == nil && res.Done && err == nil {
+			_, mayDie := os.Stat(filepath.Join(work, fmt.Sprintf("b%d.json.maydie", i)))
+			if rerr == nil && json.Unmarshal(b, &res) == nil && res.Done && (err == nil || mayDie == nil && !timedOut) {
+				if err != nil {
+					res.Counters["processes_ended_by_a_case_that_may_end_them"]++
+				}
 				outs[i].res = res
 				outs[i].ok = true
 				return
